@@ -348,8 +348,13 @@ def _sort_dependencies(
 
         else:
             if last_name == dependency.name:
-                order.append(last_name)
-                break
+                # everything else is sorted and this element still waits for
+                # something only it provides itself: a self-cycle
+                raise CircularDependencyError(
+                    missing={
+                        dependency.name: dependency.required.difference(available)
+                    }
+                )
             queue.put(dependency)
             last_name = dependency.name
         i += 1
